@@ -40,9 +40,9 @@ for name in sorted(os.listdir(sd)):
             json.dump(meta, open(os.path.join(d, 'meta.json'), 'w'), indent=1)
             print(f'{name:28s} {pid} exit={r.returncode} violations={len(viol)} {"CAUGHT" if r.returncode == 1 and viol else "MISSED"}'
                   f'{" (no-failing-input-found)" if viol and all("no-failing-input-found" in v for v in viol) else ""}', flush=True)
-            for d in os.listdir(os.path.join(HERE, '.run')):
-                if d.startswith(pid + '-seed-' + name):
-                    p_ = os.path.join(HERE, '.run', d)
+            for rd in os.listdir(os.path.join(HERE, '.run')):
+                if rd.startswith(pid + '-seed-' + name):
+                    p_ = os.path.join(HERE, '.run', rd)
                     shutil.rmtree(p_, ignore_errors=True) if os.path.isdir(p_) else os.remove(p_)
     finally:
         subprocess.run(['git', '-C', '/repo', 'worktree', 'remove', '--force', scratch])
